@@ -5,4 +5,4 @@ export VERIF_REPO="${VP_RUN_REPO:-/repo}"
 ./setup.sh > setup.log 2>&1 || { tail -20 setup.log; exit 2; }
 cd coq
 MODS=$(ls theories/Properties/*.v | sed 's|theories/Properties/\(.*\)\.v|CG.Properties.\1|')
-/usr/bin/time -f "coqchk %es %MKB" coqchk -silent -o -Q theories CG $MODS 2>&1 | tail -40
+/usr/bin/time -f "coqchk %es %MKB" coqchk -silent -o -Q theories CG $MODS > coqchk.out 2>&1; grep -v "PrimInt63\|Uint63" coqchk.out | tail -60; echo "primitive-integer axioms: $(grep -c "PrimInt63\|Uint63" coqchk.out)"
